@@ -2,7 +2,7 @@
 import os
 import sys
 
-from harness import core, tlc
+from harness import core, harvest, tlc
 from harness.core import enc, dec, guarded
 
 PID = "C15"
@@ -55,6 +55,9 @@ def run(ctx):
         extra.append({"u": u + enc("&url=") + u[:40]})
         extra.append({"u": enc("http://t.co/x?next=") + u})
     cases += extra
+    hv = harvest.inputs(ctx, "infer_redirection") + harvest.inputs(ctx, "normalize_url")
+    cases += [{"u": enc(a[0])} for a, _kw in hv]
+    ctx.extra["test_suite_inputs"] = len(hv)
     failing = core.judge(ctx, "harness.checks.c15", cases, "Trace_C15", TRACE_CFG, describe, env=ENV, chunk=100,
                          nontrivial=lambda c, e: tuple(c["u"]) if len(e["chain"]) > 1 else None)
     ctx.traces_validated = len(cases)
